@@ -83,3 +83,50 @@ def erase_types(t):
     if t is None:
         return None
     return (t[0],) + tuple(erase_types(c) for c in t[1:])
+
+
+# ---------------------------------------------------------------------------------------------------------------------
+# Shaping with source spans (propagate_positions oracle)
+
+class _node(tuple):
+    """(label, span, children): span = (start, end) offsets of the first/last token the rule matched (filtered ones included),
+    or None when the rule matched no token."""
+    def __new__(cls, label, span, kids):
+        return tuple.__new__(cls, (label, span, tuple(kids)))
+
+
+def yield_span(node):
+    kind = node[0]
+    if kind == 't':
+        return (node[4], node[5])
+    if kind == 'none':
+        return None
+    lo = hi = None
+    for c in node[2]:
+        s = yield_span(c)
+        if s is None:
+            continue
+        lo = s[0] if lo is None else min(lo, s[0])
+        hi = s[1] if hi is None else max(hi, s[1])
+    return None if lo is None else (lo, hi)
+
+
+def shape_spans(node, inp):
+    kind = node[0]
+    if kind == 't':
+        _, term, kept, typed, i0, j = node
+        if not kept:
+            return []
+        return [('tok', term if typed else None, (i0, j))]
+    if kind == 'none':
+        return [None] * node[1]
+    _, alt, children, i, j = node
+    kids = []
+    for c in children:
+        kids.extend(shape_spans(c, inp))
+    rule = alt.rule
+    if rule.inline:
+        return kids
+    if rule.expand1 and not alt.alias and len(kids) == 1:
+        return [kids[0]]
+    return [_node(alt.alias or rule.name, yield_span(node), kids)]
